@@ -322,3 +322,70 @@ func HC08_guards() {
 	vfAssert(strings.Contains(text, "ALTER TABLE items ALTER COLUMN "+name+" SET DEFAULT "+val+";"), "C08/guard-field-has-a-default")
 	vfAssert(strings.Contains(text, "ALTER TABLE items ADD CHECK("+name+" = "+val+");"), "C08/guard-field-has-an-equality-check-with-the-same-value")
 }
+
+// HC08_nullableWrappers: a column whose type is a nullable wrapper (struct {Valid bool; <data>}, both
+// field orders) has the SQL type of its data field — user-defined date and time types included — and
+// is nullable.
+func HC08_nullableWrappers() {
+	pkg := skelPkg()
+	var data types.Type
+	var dataAn an.Type
+	var want string
+	switch vfChoice("data", 8) {
+	case 0:
+		data, dataAn, want = types.Typ[types.Int64], &an.Basic{B: types.Typ[types.Int64]}, "integer"
+	case 1:
+		data, dataAn, want = types.Typ[types.String], an.String, "text"
+	case 2:
+		data, dataAn, want = types.Typ[types.Bool], an.Bool, "boolean"
+	case 3:
+		data, dataAn, want = types.Typ[types.Float64], an.Float, "real"
+	case 4:
+		data, dataAn, want = c18TimeNamed("time", "time", "Time"), an.VfTime(false), "timestamp (0) with time zone"
+	case 5: // user-defined date: the name decides (any case)
+		name := []string{"MyDate", "DATE", "Birthdate"}[vfChoice("dateName", 3)]
+		n := c18TimeNamed(pkg.Path(), pkg.Name(), name)
+		data, dataAn, want = n, an.VfNewNamed(n, an.VfTime(true)), "date"
+	case 6: // user-defined time
+		n := c18TimeNamed(pkg.Path(), pkg.Name(), "Stamp")
+		data, dataAn, want = n, an.VfNewNamed(n, an.VfTime(false)), "timestamp (0) with time zone"
+	default:
+		n := skelNamed(pkg, "IdOther", types.Typ[types.Int64])
+		data, dataAn, want = n, an.VfNewNamed(n, &an.Basic{B: types.Typ[types.Int64]}), "integer"
+	}
+	valid := types.NewField(0, pkg, "Valid", types.Typ[types.Bool], false)
+	df := types.NewField(0, pkg, "Data", data, false)
+	vars := []*types.Var{valid, df}
+	ans := []an.Type{an.Bool, dataAn}
+	if vfChoice("order", 2) == 1 {
+		vars, ans = []*types.Var{df, valid}, []an.Type{dataAn, an.Bool}
+	}
+	wn := skelNamed(pkg, "NullData", types.NewStruct(vars, nil))
+	wrapper := &an.Struct{Name: wn}
+	for i, v := range vars {
+		wrapper.Fields = append(wrapper.Fields, an.StructField{Type: ans[i], Field: v})
+	}
+	named := skelNamed(pkg, "Tbl", types.NewStruct(nil, nil))
+	st := skelStruct(pkg, named, []skelField{{name: "Id", typ: &an.Basic{B: types.Typ[types.Int64]}}, {name: "Col", typ: wrapper}})
+	var decls []gen.Declaration
+	panicked, _, msg := vfCatch(func() { decls = generateTable(sql.NewTable(st)) })
+	vfObserve("outcome", msg)
+	vfAssert(!panicked, "C08/table-generation-completes")
+	if panicked {
+		return
+	}
+	create := decls[len(decls)-1].Content
+	i := strings.Index(create, "Col ")
+	vfAssert(i >= 0, "C08/one-column-per-exported-or-guard-field")
+	if i < 0 {
+		return
+	}
+	line := create[i:]
+	if nl := strings.Index(line, "\n"); nl >= 0 {
+		line = line[:nl]
+	}
+	line = strings.TrimSuffix(strings.TrimSpace(line), ",")
+	vfObserve("column", line)
+	vfAssert(line == "Col "+want || strings.HasPrefix(line, "Col "+want+" "), "C08/nullable-wrapper-column-has-the-sql-type-of-its-data")
+	vfAssert(!strings.Contains(line, "NOT NULL"), "C08/not-null-unless-nullable-wrapper-or-variable-length-array")
+}
